@@ -3,6 +3,7 @@ import asyncio
 import copy
 import json
 import os
+import shutil
 import tempfile
 
 from .. import core
@@ -10,6 +11,10 @@ from .. import c05_engine as E
 
 IMPORTS = 'From AV Require Import Base.Prelude Model.Auth Corr.C05Corr.'
 USERS = ['alice', 'bob', 'root', 'guest', 'carol', '']
+
+# The model of record is the repaired variant (Model/Auth.v, fixed = true): /repo contains the repair since
+# commit 208592d.  The variant fixed = false is kept in Coq only for the `_refuted` theorems.
+MODEL_FIXED = True
 
 
 # ---------------------------------------------------------------------------------------------------
@@ -410,7 +415,7 @@ def replay_dict(name, world, ops, cls, text):
             'ops': [list(o) for o in ops], 'detail': text}
 
 
-def run_and_record(ctx, name, world, ops=None, plan=None, chooser=None, cases=None, variant=False):
+def run_and_record(ctx, name, world, ops=None, plan=None, chooser=None, cases=None, variant=MODEL_FIXED):
     res = E.sshutil_run(E.run_case(world, ops=ops, plan=plan, chooser=chooser))
     gr = [(u, E.spec_granted(world, res.sid, u, res.payloads)) for u in USERS]
     if cases is not None:
@@ -419,15 +424,6 @@ def run_and_record(ctx, name, world, ops=None, plan=None, chooser=None, cases=No
 
 
 # ---------------------------------------------------------------------------------------------------
-
-def detect_variant(ctx):
-    """Which model variant does the tree under test correspond to?  The stale-begin_auth witness decides."""
-    name, world, ops = scenario_list()[0]
-    res = E.sshutil_run(E.run_case(world, ops=ops, probe=False))
-    repaired = res.completed_as != ['root']
-    ctx.cov['oracle']['model_variant'] = 'repaired (fixed=true)' if repaired else 'as in /repo at round 2 (fixed=false)'
-    return repaired
-
 
 def stats_of(ctx, world, res):
     ops = res.ops
@@ -497,7 +493,8 @@ def stats_of(ctx, world, res):
 
 def stage_server(ctx):
     rng = ctx.rng
-    variant = detect_variant(ctx)
+    variant = MODEL_FIXED
+    ctx.cov['oracle']['model_variant'] = 'repaired (fixed=true); no run-time probing'
     cases = []
     verdicts = []            # (case index, name, world, ops, class, text)
 
@@ -532,24 +529,21 @@ def stage_server(ctx):
                   '%d of %d histories differ; first: %s world=%s ops=%s  model: %s'
                   % (len(bad), len(cases), first[0], json.dumps(first[2], sort_keys=True), json.dumps(first[3]),
                      view[-1500:]))
-    # report what the oracle found.  A failing history on which the implementation behaves exactly as the
-    # model of the code (Model/Auth.v, variant fixed=false) is EXPLAINED by the modelled mechanisms (the
-    # stale-continuation defects refuted in Props/C05.v); one on which it deviates from the model is new
-    # and is reported first.
+    # report what the oracle found.  The theorems say the model never violates the property, so a failing
+    # history is also one on which the implementation deviates from the model (flagged when Coq confirmed it).
+    # One replay per fixed scenario (each is the regression record of one mechanism), two per class for
+    # generated histories.
     badset = set(bad or [])
-    unexplained = [v for v in verdicts if bad is None or v[0] in badset]
-    explained = [v for v in verdicts if not (bad is None or v[0] in badset)]
     shown = {}
-    for idx, name, world, ops, cls, text in unexplained + explained:
-        expl = not (bad is None or idx in badset)
-        key = (cls, expl)
-        if shown.get(key, 0) >= 2:
+    for idx, name, world, ops, cls, text in verdicts:
+        key = (name, cls) if name.startswith('scenario:') else ('gen', cls)
+        if shown.get(key, 0) >= (1 if name.startswith('scenario:') else 2):
             continue
         shown[key] = shown.get(key, 0) + 1
         rd = replay_dict(name, world, ops, cls, text)
-        rd['explained_by_model'] = expl
-        rd['model_variant_fixed'] = variant
-        ctx.failing_input(text + ('' if expl else '  [the implementation also deviates from the model on this history]'), rd)
+        rd['deviates_from_model'] = None if bad is None else idx in badset
+        ctx.failing_input(text + ('  [the implementation also deviates from the model on this history]'
+                                  if idx in badset else ''), rd)
     # vacuity guards (every class below is reached by one of the fixed scenarios)
     need = ['history.user_switch', 'history.pipelined_pair', 'history.completions_out_of_order',
             'history.packet_between_completion_and_wakeup', 'history.request_after_success',
@@ -634,12 +628,11 @@ async def client_half(ctx):
         await attempt('agent_other_user', w, None, username='bob', client_keys=(), agent_path=path)
     finally:
         server.close()
-        await server.wait_closed()
         try:
-            os.remove(path)
-            os.rmdir(d)
-        except OSError:
+            await asyncio.wait_for(server.wait_closed(), 5)
+        except (asyncio.TimeoutError, OSError):
             pass
+        shutil.rmtree(d, ignore_errors=True)
     ctx.cov['oracle']['client_half'] = [[a, b] for a, b, _, _ in results]
 
 
@@ -692,8 +685,10 @@ def run(ctx):
     ctx.cov['trusted_base'] += [
         'Model/Auth.v models _process_userauth_request, _finish_userauth, lookup_server_auth, the password / publickey / '
         'keyboard-interactive ServerAuth classes, validate_public_key (authorized_keys and certificate decision logic), '
-        'send_userauth_success/failure and the option getters; tied by the correspondence on every run; the variant '
-        '(code as it is / repaired) is chosen by running the stale-begin_auth witness against the tree under test',
+        'send_userauth_success/failure and the option getters; the variant fixed=true (the code since repair 208592d) is '
+        'the one tied by the correspondence on every run; fixed=false (the code before it) only carries the '
+        '`_refuted` theorems, whose witnesses are replayed on the implementation as fixed scenarios and must NOT '
+        'reproduce',
         'application callbacks, utf-8 + saslprep, key / certificate blob decoding, signature verification, time and the '
         'from= / source-address matches are parameters of the model (record `world`); theorems hold for every world; the '
         'application is assumed to install the named user\'s authorized keys in begin_auth (documented pattern)',
